@@ -226,6 +226,9 @@ func c17BuildSchema(row C17Row, seed int64, base string) *c17Builder {
 	if row.B("handInModel") {
 		b.feature("handInModel", b.handInModel)
 	}
+	if row.B("ifaceOrphan") {
+		b.feature("ifaceOrphan", b.ifaceOrphan)
+	}
 	if row.B("builtinDir") {
 		b.feature("builtinDirs", b.builtinDirs)
 	}
@@ -819,6 +822,9 @@ func (b *c17Builder) idTypeClash() {
 		t.add(&c17Field{Name: "id", Type: "ID!"})
 		t.add(&c17Field{Name: fmt.Sprintf("only%d", i), Type: "Int"})
 		b.query.add(&c17Field{Name: fmt.Sprintf("clashType%d", i), Type: n})
+		// each of the colliding types is also a FIELD TYPE of a different other type (modelgen names field
+		// types while it walks the schema's type map: the allocation of the numbered name must not depend on it)
+		b.obj(i).add(&c17Field{Name: fmt.Sprintf("clashRef%d", i), Type: "[" + n + "!]"})
 	}
 }
 
@@ -875,6 +881,27 @@ func (b *c17Builder) handInModel() {
 		dir, _ := c17ModelPkg(b.row)
 		b.models["HandKept"] = b.base + "/" + dir + ".HandKept"
 	}
+}
+
+// ifaceOrphan adds interfaces without possible types: one that nothing implements (declared ahead of its
+// first implementor) and one implemented only by another interface that no object implements; both are
+// returned by query fields, so their marshalers / type switches are generated.
+func (b *c17Builder) ifaceOrphan() {
+	o := b.newType("interface", "Orphan", "Pending", "Unimplemented")
+	o.add(&c17Field{Name: "id", Type: "ID!"})
+	o.add(&c17Field{Name: "note", Type: "String"})
+	b.query.add(&c17Field{Name: "orphan" + o.Name, Type: o.Name})
+	b.query.add(&c17Field{Name: "orphans" + o.Name, Type: "[" + o.Name + "!]"})
+	p := b.newType("interface", "Auditable", "Stamped", "Tracked")
+	p.add(&c17Field{Name: "id", Type: "ID!"})
+	p.add(&c17Field{Name: "updatedAt", Type: "String!"})
+	ch := b.newType("interface", p.Name+"Child", p.Name+"Sub")
+	ch.Impl = []string{p.Name}
+	ch.add(&c17Field{Name: "id", Type: "ID!"})
+	ch.add(&c17Field{Name: "updatedAt", Type: "String!"})
+	ch.add(&c17Field{Name: "by", Type: "String"})
+	b.query.add(&c17Field{Name: "last" + p.Name, Type: p.Name})
+	b.query.add(&c17Field{Name: "all" + ch.Name, Type: "[" + ch.Name + "]"})
 }
 
 func (b *c17Builder) decl(s string) { b.s.DirDecls = append(b.s.DirDecls, s) }
